@@ -53,9 +53,12 @@ func GetLengthLimitedID(fixedPrefix, suffix string, maxLength int) string {
 	prefixLen := len(fixedPrefix)
 	suffixLen := len(suffix)
 	totalLen := prefixLen + suffixLen
-	if totalLen > maxLength || (totalLen == maxLength && suffix[0:1] == shortenedPrefix) {
-		// Either it's just too long, or it's exactly the right length but it happens to
-		// start with the character that we use to denote a shortened string, which could
+	// Length that a shortened name has: normally exactly maxLength, but with a generous limit
+	// (nftables allows 256 characters) the whole digest fits and the name is shorter than that.
+	shortenedLen := min(maxLength, prefixLen+len(shortenedPrefix)+base64.RawURLEncoding.EncodedLen(sha256.Size))
+	if totalLen > maxLength || (totalLen == shortenedLen && suffix[0:1] == shortenedPrefix) {
+		// Either it's just too long, or it's exactly the length of a shortened name and it happens
+		// to start with the character that we use to denote a shortened string, which could
 		// result in a clash.  Hash the value and truncate...
 		hasher := sha256.New()
 		_, err := hasher.Write([]byte(suffix))
@@ -67,6 +70,10 @@ func GetLengthLimitedID(fixedPrefix, suffix string, maxLength int) string {
 		if charsLeftForHash <= 0 {
 			log.Panicf("GetLengthLimitedID: maxLength %d is too small for prefix %q (length %d); "+
 				"need at least %d", maxLength, fixedPrefix, prefixLen, prefixLen+2)
+		}
+		if charsLeftForHash > len(hash) {
+			// Generous limit: the whole digest fits (see shortenedLen above).
+			charsLeftForHash = len(hash)
 		}
 		return fixedPrefix + shortenedPrefix + hash[0:charsLeftForHash]
 	}
